@@ -57,7 +57,9 @@ SlicesFrom(t, S, r, i0, cur0) ==
 StreamOf(t, r) == IF r.cut < 0 THEN t.S ELSE SubSeq(t.S, 1, r.cut)
 
 MonC07run(t, r) ==
-    IF r.end # "eof" \/ r.quit = 2 THEN "triv"
+    \* (errors not raised: an iteration that an exception stops all the same, with data still unread, has stopped early)
+    IF r.quit # 2 /\ r.end \notin {"eof", "hang"} /\ r.left # 0 THEN "C07:iteration-stopped-by-an-exception-with-data-unread"
+    ELSE IF r.end # "eof" \/ r.quit = 2 THEN "triv"
     ELSE LET sl == SlicesFrom(t, StreamOf(t, r), r, 1, 0) IN
          IF sl # "ok" THEN sl
          ELSE IF r.left # 0 THEN "C07:stopped-with-data-unread"
@@ -130,7 +132,9 @@ MonC09cut(t, full, c) ==
 
 MonC09(t) ==
     LET full == t.runs[1] IN
-    IF full.end # "eof" THEN "triv"
+    \* (the uncut run is the cut k = Len(S): it, too, "ends without raising" when errors are ignored or logged)
+    IF full.end \notin {"eof", "hang"} /\ full.quit # 2 THEN "C09:uncut-run-did-not-end-normally:" \o full.end
+    ELSE IF full.end # "eof" THEN "triv"
     ELSE FirstBad([k \in 1..(Len(t.runs) - 1) |-> MonC09cut(t, full, t.runs[k + 1])], 1, FALSE)
 
 (***************************************************************************)
@@ -258,6 +262,22 @@ ItemNote(t) ==
                         ~Interpreted(Raw(t, t.runs[k].items[i]), ProtOfRaw(Raw(t, t.runs[k].items[i])))}
     IN IF bad = {} THEN "" ELSE "EXT:reader-delivered-parsed-item-failing-its-checksum-rule"
 
+(***************************************************************************)
+(* Growth beyond the listed properties: the logging channel.  Under        *)
+(* ERR_LOG without an error handler every rejected frame produces exactly  *)
+(* one ERROR record (carrying the exception the handler would have got);   *)
+(* in every other configuration the library logs nothing.                  *)
+(***************************************************************************)
+LogNote(t) ==
+    IF t.prop # "C12" \/ Len(t.runs) < 4 \/ \E k \in 1..4 : ~("logs" \in DOMAIN t.runs[k]) \/ t.runs[k].end = "hang" THEN ""
+    ELSE LET lg == t.runs[2]
+             nh == t.runs[4]
+         IN IF \E k \in 1..3 : t.runs[k].logs # <<>> THEN "EXT:log-record-emitted-although-a-handler-was-given-or-mode-is-not-ERR_LOG"
+            ELSE IF nh.end # "eof" \/ lg.end # "eof" THEN ""
+            ELSE IF Len(nh.logs) # Len(lg.errfams) THEN "EXT:log-records-do-not-match-rejected-frames"
+            ELSE IF \E i \in 1..Len(nh.logs) : nh.logs[i][1] # "ERROR" \/ nh.logs[i][2] # lg.errfams[i] THEN "EXT:log-record-level-or-exception-differs"
+            ELSE ""
+
 Judge(t) == CASE t.prop = "C06" -> MonC06(t)
               [] t.prop = "C07" -> MonC07(t)
               [] t.prop = "C08" -> MonC08(t)
@@ -273,7 +293,9 @@ Next == /\ verdict = "pending"
                d == IF t.conf = 1 THEN Drift(t, 1) ELSE "conf"
                x1 == IF Len(t.recipe) > 0 THEN EnvNote(t) ELSE ""
                x2 == ItemNote(t)
+               x3 == LogNote(t)
            IN /\ verdict' = v
+              /\ (x3 # "" => PrintT("E " \o ToString(tid) \o " " \o x3))
               /\ (x1 # "" => PrintT("E " \o ToString(tid) \o " " \o x1))
               /\ (x2 # "" => PrintT("E " \o ToString(tid) \o " " \o x2))
               /\ (v # "ok" => PrintT("V " \o ToString(tid) \o " " \o v))
